@@ -123,6 +123,30 @@ fn run_kind<H: HK>(ctx: &mut Ctx, arena: &Arena, max_len: usize) {
     }
 }
 
+/// Large slices: lengths and declarations around the page size, the specification's 32 KiB header limit, the 16-bit
+/// boundary, 1 MiB and 16 MiB.
+fn run_large<H: HK>(ctx: &mut Ctx, arena: &Arena, bases: &[usize]) {
+    for &l in bases {
+        for (dl, dd) in [(0i64, 0i64), (0, -8), (0, 8), (-8, 0), (8, 0), (8, 1), (0, -3), (16, -16), (-16, 16), (0, 4096), (0, -4096)] {
+            let len = (l as i64 + dl) as usize;
+            let decl = (l as i64 + dd) as u32;
+            let describe = || J::obj().set("part", "large").set("header_kind", H::NAME).set("slice_len", len).set("declared_size", decl).set("start_alignment", 0);
+            ctx.leaf(describe, |ctx| {
+                ctx.state_direct();
+                let mut img = vec![0u8; len];
+                let t = H::template();
+                for i in 0..len {
+                    img[i] = if i < H::HDR { t[i] } else { marker(i, 1) };
+                }
+                wr32(&mut img, H::SIZE_OFF, decl);
+                let p = arena.place_at(arena.len() - len, &img);
+                let slice: &[u8] = unsafe { std::slice::from_raw_parts(p, len) };
+                check_one::<H>(ctx, slice, decl as usize, 0);
+            });
+        }
+    }
+}
+
 fn check_one<H: HK>(ctx: &mut Ctx, slice: &[u8], decl: usize, align: usize) {
     let len = slice.len();
     // reference verdict, in the stated precedence
@@ -323,6 +347,14 @@ fn run(ctx: &mut Ctx) {
     run_kind::<BootInformationHeader>(ctx, &arena, max_len);
     run_kind::<HeaderTagHeader>(ctx, &arena, max_len);
     run_kind::<Multiboot2BasicHeader>(ctx, &arena, max_len);
+    let bases: Vec<usize> = if ctx.quick() { vec![4096, 32768, 65536, 1 << 20] } else { vec![256, 4096, 8192, 32768, 65536, 1 << 20, 1 << 24] };
+    ctx.bound("large_slices", format!("per header kind: slice lengths L + {{0, -8, 8, 16, -16}} x declared sizes L + {{0, -8, 8, 1, -3, 16, -16, 4096, -4096}} (11 combinations) for L in {:?}; slice flush against the guard page", bases));
+    let big = Arena::new_sparse((*bases.last().unwrap() + 65536) / 4096);
+    big.fill(arena::FILL_A);
+    run_large::<TagHeader>(ctx, &big, &bases);
+    run_large::<BootInformationHeader>(ctx, &big, &bases);
+    run_large::<HeaderTagHeader>(ctx, &big, &bases);
+    run_large::<Multiboot2BasicHeader>(ctx, &big, &bases);
     rounding(ctx);
 }
 
